@@ -36,7 +36,7 @@ LEVEL_TEXT = (
     "projector, zero functional, weighted squared-L2 loss with diagonal operator, nuclear norm on singular values) the modelled "
     "prox carries the sub-gradient certificate for ALL v, lam>0, parameters and sizes, hence is the unique minimiser, firmly "
     "non-expansive and in the domain; global minimality is proved directly for the non-convex SquaredL2AbsLoss, "
-    "SquaredL2SquaredAbsLoss (root as a relation) and L1-L2 (every beta>=0 except v=0 with beta>1); for L0Norm the "
+    "SquaredL2SquaredAbsLoss (root as a relation) and L1-L2 (every beta>=0, all four branches and v=0); for L0Norm the "
     "theorem characterises exactly where the coded threshold is optimal and the negation is proved with a witness."
 )
 LEVEL_NOTE = (
@@ -44,7 +44,7 @@ LEVEL_NOTE = (
     "the correspondence (differential test, sampled) between model and code; SVD and the von Neumann trace inequality "
     "(nuclear norm is proved on singular values only); complex phase exp(i angle v) modelled as v/|v|; the cubic root of "
     "SquaredL2SquaredAbsLoss enters as the relation r>=0, r^3+pr+q=0 which is checked numerically on the code's root. "
-    "Recorded defects: L0Norm threshold (known), L1MinusL2Norm at v=0 with beta>1 (known)."
+    "Recorded defect: L0Norm threshold (known)."
 )
 PROP_MODULES = ["Scico.Props.C02"]
 EXTRA_TARGETS = ["Drv.Prox"]
@@ -73,7 +73,6 @@ ASSUMPTIONS = [
 ]
 
 KNOWN_L0 = "l0-threshold"
-KNOWN_L1L2 = "l1l2-zero-beta-gt1"
 
 
 def _key(case):
@@ -96,11 +95,6 @@ def l0_predicted_optimal(case):
     lam = float(case["lam"])
     a = np.abs(v)
     return bool(np.all(np.where(a >= lam, a**2 >= 2 * lam, a**2 <= 2 * lam)))
-
-
-def l1l2_is_known_defect(case):
-    v = pc.flat_value(case, "v")
-    return case["fam"] == "l1l2" and not np.any(v) and float(case["params"]["beta"]) > 1
 
 
 def make_oracle(rng_seed, model_p=None):
@@ -184,13 +178,19 @@ def run_oracle_case(ctx, case, p_model=None):
             if not ctx.is_known(KNOWN_L0):
                 ctx.violation({"kind": "failing-input", "case": _public(case), "failing": r}, True, "L0Norm.prox is not the minimiser")
         return None
-    if r is not None and l1l2_is_known_defect(case) and ctx.is_known(KNOWN_L1L2):
-        ctx.suppressed += 1
-        ctx.known_finding(KNOWN_L1L2, True)
-        return None
     if r is not None:
         ctx.violation({"kind": "failing-input", "case": _public(case), "failing": r}, True, f"oracle: {r['reason']}")
     return r
+
+
+def _families():
+    """all families; `VERIF_C02_FAMILIES=l1,l2` restricts a development run (never used by the registered command)"""
+    import os
+
+    sel = os.environ.get("VERIF_C02_FAMILIES")
+    if not sel:
+        return list(pc.FAMILIES)
+    return [f for f in pc.FAMILIES if f in sel.split(",")]
 
 
 def corpus_cases():
@@ -211,18 +211,24 @@ def correspond(ctx, model):
     for c in corpus_cases():
         case = dict(c["case"])
         case["stream"] = "corpus"
-        check_case(ctx, model, case, run_oracle=not c.get("known_id"))
+        if c.get("known_id"):
+            # witness of a recorded defect: the model follows the (defective) code here; if the code has been
+            # repaired upstream the implementation satisfies the property at the witness and differs from the model
+            if make_oracle(ctx.seed)(case) is None and c["known_id"] != KNOWN_L0:
+                ctx.count(f"known-witness-now-satisfies-property:{c['known_id']}")
+                continue
+            check_case(ctx, model, case, run_oracle=False)
+        else:
+            check_case(ctx, model, case, run_oracle=True)
     # 2. per family: structured + boundary
     ns = ctx.n(22, 230)
     nb = ctx.n(14, 110)
     every = ctx.n(6, 10)
     i = 0
-    for fam in pc.FAMILIES:
+    for fam in _families():
         for k in range(ns + nb):
             case = pg.structured(rng, fam) if k < ns else pg.boundary(rng, fam)
             i += 1
-            if l1l2_is_known_defect(case):
-                continue
             check_case(ctx, model, case, run_oracle=(i % every == 0))
             if len(ctx.violations) >= 5:
                 return
@@ -247,14 +253,6 @@ def findings(ctx, model):
     r = model.call("l0", v=common.fs2b([1.2]), lam=common.f2b(1.0))
     if common.b2fs(r["out"]) != [float(p[0])]:
         ctx.disagree("prox.l0.witness", {"v": [1.2], "lam": 1.0}, p.tolist(), common.b2fs(r["out"]))
-    # l1l2-zero-beta-gt1 : v = 0, beta = 2, lam = 1 -> returns 0 (objective 0) but x = e_1 has objective -0.5
-    g = F.L1MinusL2Norm(beta=2.0)
-    z = snp.zeros((3,), dtype=np.float64)
-    q = np.asarray(g.prox(z, 1.0))
-    Fq = float(g(snp.array(q))) + 0.5 * float(np.sum(q**2))
-    e = snp.array([1.0, 0.0, 0.0])
-    Fe = float(g(e)) + 0.5
-    ctx.known_finding(KNOWN_L1L2, bool(Fe < Fq - 1e-9), f"prox={q.tolist()} objective={Fq} vs {Fe} at e_1")
 
 
 def search(ctx, model, why):
@@ -263,12 +261,10 @@ def search(ctx, model, why):
     common.setup_scico()
     rng = ctx.rng
     n = ctx.n(8, 40)
-    for fam in pc.FAMILIES:
+    for fam in _families():
         for k in range(n):
             case = pg.structured(rng, fam) if k % 2 == 0 else pg.boundary(rng, fam)
             case["dtype"] = "float64"
-            if l1l2_is_known_defect(case):
-                continue
             with warnings.catch_warnings():
                 warnings.simplefilter("ignore")
                 try:
